@@ -394,6 +394,11 @@ class Shard:
 def shard_main(pid, tier, seed, shard, nshards, frag_path, only_kind=None):
     venv.bootstrap()
     mod = load_property(pid)
+    # the subject sometimes writes debris into the current directory
+    # (e.g. ",,bogus-inv" from Repository.check): keep it out of /verif
+    cwd = os.path.join(venv.scratch_root(), "cwd")
+    os.makedirs(cwd, exist_ok=True)
+    os.chdir(cwd)
     s = Shard(mod, tier, seed, shard, nshards, only_kind)
     try:
         s.run_all()
